@@ -559,7 +559,7 @@ PROPS["C18"] = {
     "rule": "internal documents with 0-4 keys of every type (JWK of every curve, base58, Ed25519 keys for the 2018/2020 types incl. wrong-width ones, no material, unknown type), every subset "
             "and order of purposes, 0-3 services with every endpoint shape and extra members, also-known-as; states with and without commitments, anchor origin, times, version id, "
             "deactivated flag; published and unpublished operation lists with arbitrary (time, number) pairs incl. disagreeing ones, exact duplicates and repeated canonical references; "
-            "info with and without canonical / equivalent ids, occasionally without id / published; all 16 option combinations and 0-3 method contexts. Compared: the whole result "
+            "info with and without canonical / equivalent ids, occasionally without id / published; all 16 option combinations and 0-3 method contexts; every fourth state also goes through the generic document transformer (doctransformer). Compared: the whole result "
             "(operations with equal (time, number) as multisets). Non-trivial = transformed; distinct = distinct (state, info, options).",
     "technique": "Lean 4 theorems (sorted permutation, de-duplication, per-key fields, relationships, contexts, metadata table) + go/ast table obligations + differential correspondence",
     "level_text": "Proved in Lean: operations are listed as a permutation of the input sorted lexicographically by (transaction time, transaction number); the published list has no canonical "
